@@ -214,6 +214,12 @@ func buildGraph(rc resolve.Client, root resolve.VersionKey, s *state) (*resolve.
 					// root for some reason. Skip it.
 					continue
 				}
+				if g.Nodes[f].Version != parent {
+					// The requirement was made by a version of the
+					// parent's package that has since been replaced
+					// by another, see hasRouteToRoot. Skip it.
+					continue
+				}
 				from = f
 			}
 			rvk := req.VersionKey
